@@ -535,6 +535,10 @@ func jsonMessage(v interface{}) (json.RawMessage, bool) {
 	case *ownMessage:
 		return m.msg, true
 	case *json.RawMessage:
+		if m == nil {
+			// a typed nil pointer is not a message
+			return nil, false
+		}
 		return *m, true
 	}
 	return nil, false
